@@ -8,9 +8,9 @@ import OomdProps.C16
 Model: `OomdModel.Hook` (on top of the shared kill model `OomdModel.Kill`), tied to `BaseKillPlugin.cpp`, `PrekillHook.h`,
 `Engine::firePrekillHook` by the `h_hook` correspondence run.
 
-A *history* (`runHistory cfg rank none none ticks env`) is any sequence of `run()` calls of one kill-plugin instance:
-`cfg` = kill arguments + hook priority list + patterns per hook, `rank` = the plugin's ranking function, each `TickIn` = the
-tick's whole tree, the resolved `cgroup` argument and the deadline a chain fired on that tick would get, `env` = every answer of
+A *history* (`runHistory cfg none none ticks env`) is any sequence of `run()` calls of one kill-plugin instance:
+`cfg` = kill arguments + hook priority list + patterns per hook, each `TickIn` = the tick's whole tree, the resolved `cgroup`
+argument, the plugin's ranking function on that tick and the deadline a chain fired on that tick would get, `env` = every answer of
 the environment (kill(2)/xattr/… results of the kill model, the steady-clock reading of every `pastPrekillHookTimeout` call,
 the answer of every `didFinish` call).  Nothing bounds the number of ticks, hooks, patterns, candidates, the length of a wait,
 or what happens to the tree between ticks (removal / re-creation = the tree of the next tick).
@@ -25,8 +25,8 @@ namespace C07
 open OomdModel OomdModel.Kill OomdModel.Hook
 
 /-- the trace of a whole history of a fresh plugin instance -/
-def trace (cfg : HCfg) (rank : List View → List View) (ticks : List TickIn) (env : HEnv) : List HEv :=
-  flat (runHistory cfg rank none none ticks env)
+def trace (cfg : HCfg) (ticks : List TickIn) (env : HEnv) : List HEv :=
+  flat (runHistory cfg none none ticks env)
 
 /-! ## C07_priority -/
 
@@ -93,17 +93,17 @@ theorem canRun_three_cases (pats : Nat → List Path.CgPath) (victim : Path.CgPa
 /-! ## every history is accepted by the trace automaton (`OomdProofs.Hook.step`) -/
 
 /-- Soundness of the automaton that states C07's clauses, for every configuration, ranking function, history and environment. -/
-theorem sound (cfg : HCfg) (rank : List View → List View) (ticks : List TickIn) (env : HEnv) :
-    ∃ m, mrun cfg.prio cfg.pats Mon.init (trace cfg rank ticks env) = some m :=
-  runHistory_accepted cfg rank ticks none none env Mon.init invSt_init
+theorem sound (cfg : HCfg) (ticks : List TickIn) (env : HEnv) :
+    ∃ m, mrun cfg.prio cfg.pats Mon.init (trace cfg ticks env) = some m :=
+  runHistory_accepted cfg ticks none none env Mon.init invSt_init
 
 /-- **C07_priority.**  Every hook fired, in any history, is the one `selectHook` names for the victim's path: the first in
 priority order whose patterns match. -/
-theorem priority (cfg : HCfg) (rank : List View → List View) (ticks : List TickIn) (env : HEnv)
+theorem priority (cfg : HCfg) (ticks : List TickIn) (env : HEnv)
     (pre post : List HEv) (h cg : Nat) (path : String) (inv : Nat)
-    (htr : trace cfg rank ticks env = pre ++ .fire h cg path inv :: post) :
+    (htr : trace cfg ticks env = pre ++ .fire h cg path inv :: post) :
     selectHook cfg.prio cfg.pats (vp path) = some h := by
-  obtain ⟨m, hm⟩ := sound cfg rank ticks env
+  obtain ⟨m, hm⟩ := sound cfg ticks env
   rw [htr] at hm
   exact (accepted_fire hm rfl).2.1
 
@@ -111,19 +111,19 @@ theorem priority (cfg : HCfg) (rank : List View → List View) (ticks : List Tic
 
 /-- **C07_at_most_one_outstanding.**  In every prefix of every history the number of invocations created exceeds the number
 destroyed by at most one (and is never smaller): a kill action never has two invocations outstanding. -/
-theorem at_most_one_outstanding (cfg : HCfg) (rank : List View → List View) (ticks : List TickIn) (env : HEnv)
-    (pre suf : List HEv) (htr : trace cfg rank ticks env = pre ++ suf) :
+theorem at_most_one_outstanding (cfg : HCfg) (ticks : List TickIn) (env : HEnv)
+    (pre suf : List HEv) (htr : trace cfg ticks env = pre ++ suf) :
     nDestroy pre ≤ nFire pre ∧ nFire pre ≤ nDestroy pre + 1 := by
-  obtain ⟨m, hm⟩ := sound cfg rank ticks env
+  obtain ⟨m, hm⟩ := sound cfg ticks env
   rw [htr] at hm
   exact accepted_outstanding hm
 
 /-- A hook is fired only when nothing is outstanding: all earlier invocations have been destroyed. -/
-theorem fire_finds_none_outstanding (cfg : HCfg) (rank : List View → List View) (ticks : List TickIn) (env : HEnv)
+theorem fire_finds_none_outstanding (cfg : HCfg) (ticks : List TickIn) (env : HEnv)
     (pre post : List HEv) (h cg : Nat) (path : String) (inv : Nat)
-    (htr : trace cfg rank ticks env = pre ++ .fire h cg path inv :: post) :
+    (htr : trace cfg ticks env = pre ++ .fire h cg path inv :: post) :
     nFire pre = nDestroy pre := by
-  obtain ⟨m, hm⟩ := sound cfg rank ticks env
+  obtain ⟨m, hm⟩ := sound cfg ticks env
   rw [htr] at hm
   obtain ⟨_, _, mp, hpre, hl⟩ := accepted_fire hm rfl
   have := mrun_count pre Mon.init mp hpre
@@ -132,11 +132,11 @@ theorem fire_finds_none_outstanding (cfg : HCfg) (rank : List View → List View
 
 /-- Polls and destroys always concern the invocation fired last: between its fire and the poll / destroy there is no other
 fire, no attempt and no final return. -/
-theorem poll_and_destroy_name_the_fired_invocation (cfg : HCfg) (rank : List View → List View) (ticks : List TickIn) (env : HEnv)
+theorem poll_and_destroy_name_the_fired_invocation (cfg : HCfg) (ticks : List TickIn) (env : HEnv)
     (pre post : List HEv) (inv : Nat) (e : HEv) (he : (∃ fin, e = .poll inv fin) ∨ e = .destroy inv)
-    (htr : trace cfg rank ticks env = pre ++ e :: post) :
+    (htr : trace cfg ticks env = pre ++ e :: post) :
     ∃ pre1 h cg path mid, pre = pre1 ++ [.fire h cg path inv] ++ mid ∧ ∀ x ∈ mid, quiet x = true := by
-  obtain ⟨m, hm⟩ := sound cfg rank ticks env
+  obtain ⟨m, hm⟩ := sound cfg ticks env
   rw [htr] at hm
   rcases he with ⟨fin, rfl⟩ | rfl
   · obtain ⟨cg, pre1, h, path, mid, hpre, hq, _⟩ := accepted_poll hm
@@ -145,24 +145,24 @@ theorem poll_and_destroy_name_the_fired_invocation (cfg : HCfg) (rank : List Vie
     exact ⟨pre1, h, cg, path, mid, hpre, hq⟩
 
 /-- `run()` returns ASYNC_PAUSED exactly when it leaves an invocation outstanding (`prekillHookState_` set). -/
-theorem async_iff_outstanding (cfg : HCfg) (rank : List View → List View) (ticks : List TickIn) (env : HEnv) :
-    ∀ out ∈ runHistory cfg rank none none ticks env, out.ret = .async ↔ out.st.isSome = true := by
-  refine runHistory_forall cfg rank (fun out => out.ret = .async ↔ out.st.isSome = true) ?_ ticks none none env Mon.init invSt_init
-  intro dl top roots st env m hm
+theorem async_iff_outstanding (cfg : HCfg) (ticks : List TickIn) (env : HEnv) :
+    ∀ out ∈ runHistory cfg none none ticks env, out.ret = .async ↔ out.st.isSome = true := by
+  refine runHistory_forall cfg (fun out => out.ret = .async ↔ out.st.isSome = true) ?_ ticks none none env Mon.init invSt_init
+  intro rank dl top roots st env m hm
   exact (runTick_accepted cfg rank dl top roots st env m hm).choose_spec.2.2
 
 /-! ## C07_fire_only_inside_window -/
 
 /-- **C07_fire_only_inside_window.**  In every `run()` of every history a hook is fired only directly after a clock reading
 that is not past the deadline of the ActionContext that `run()` was given ... -/
-theorem fire_only_inside_window (cfg : HCfg) (rank : List View → List View) (ticks : List TickIn) (env : HEnv) :
-    ∀ out ∈ runHistory cfg rank none none ticks env, ∀ (pre post : List HEv) (h cg : Nat) (path : String) (inv : Nat),
+theorem fire_only_inside_window (cfg : HCfg) (ticks : List TickIn) (env : HEnv) :
+    ∀ out ∈ runHistory cfg none none ticks env, ∀ (pre post : List HEv) (h cg : Nat) (path : String) (inv : Nat),
       out.evs = pre ++ .fire h cg path inv :: post →
       ∃ pre1 t, pre = pre1 ++ [.now t false] ∧ ∀ d, out.dl = some d → t ≤ d := by
-  refine runHistory_forall cfg rank (fun out => ∀ (pre post : List HEv) (h cg : Nat) (path : String) (inv : Nat),
+  refine runHistory_forall cfg (fun out => ∀ (pre post : List HEv) (h cg : Nat) (path : String) (inv : Nat),
       out.evs = pre ++ .fire h cg path inv :: post →
       ∃ pre1 t, pre = pre1 ++ [.now t false] ∧ ∀ d, out.dl = some d → t ≤ d) ?_ ticks none none env Mon.init invSt_init
-  intro dl top roots st env m hm pre post h cg path inv hev
+  intro rank dl top roots st env m hm pre post h cg path inv hev
   simp only at hev
   obtain ⟨m', hacc, _, _⟩ := runTick_accepted cfg rank dl top roots st env m hm
   rw [hev] at hacc
@@ -183,23 +183,23 @@ theorem fire_only_inside_window (cfg : HCfg) (rank : List View → List View) (t
 /-- ... and that deadline is fixed when the action chain fires: a `run()` that follows an ASYNC_PAUSED one sees the same
 deadline (the ruleset resumes the chain with the saved ActionContext, C06), any other sees the deadline of a chain fired on
 its own tick (reading at fire + `prekill_hook_timeout`, `Ruleset::runOnceImpl`). -/
-theorem deadline_fixed_at_chain_fire (cfg : HCfg) (rank : List View → List View) (ticks : List TickIn) (env : HEnv)
+theorem deadline_fixed_at_chain_fire (cfg : HCfg) (ticks : List TickIn) (env : HEnv)
     (i : Nat) (o1 o2 : TickOut) (ti : TickIn)
-    (h1 : (runHistory cfg rank none none ticks env)[i]? = some o1)
-    (h2 : (runHistory cfg rank none none ticks env)[i + 1]? = some o2) (hti : ticks[i + 1]? = some ti) :
+    (h1 : (runHistory cfg none none ticks env)[i]? = some o1)
+    (h2 : (runHistory cfg none none ticks env)[i + 1]? = some o2) (hti : ticks[i + 1]? = some ti) :
     o2.dl = if o1.ret = .async then o1.dl else ti.freshDl :=
-  runHistory_dl_next cfg rank ticks none none env i o1 o2 ti h1 h2 hti
+  runHistory_dl_next cfg ticks none none env i o1 o2 ti h1 h2 hti
 
-theorem first_deadline (cfg : HCfg) (rank : List View → List View) (ti : TickIn) (rest : List TickIn) (env : HEnv) (o : TickOut)
-    (h : (runHistory cfg rank none none (ti :: rest) env)[0]? = some o) : o.dl = ti.freshDl :=
-  runHistory_dl_first cfg rank ti rest none env o h
+theorem first_deadline (cfg : HCfg) (ti : TickIn) (rest : List TickIn) (env : HEnv) (o : TickOut)
+    (h : (runHistory cfg none none (ti :: rest) env)[0]? = some o) : o.dl = ti.freshDl :=
+  runHistory_dl_first cfg ti rest none env o h
 
 /-- every reading's verdict in a `run()` is the comparison `t > deadline` with that `run()`'s deadline (no deadline: never past) -/
-theorem readings_judged_by_the_deadline (cfg : HCfg) (rank : List View → List View) (ticks : List TickIn) (env : HEnv) :
-    ∀ out ∈ runHistory cfg rank none none ticks env, ∀ t b, HEv.now t b ∈ out.evs → b = past out.dl t := by
-  refine runHistory_forall cfg rank (fun out => ∀ t b, HEv.now t b ∈ out.evs → b = past out.dl t) ?_
+theorem readings_judged_by_the_deadline (cfg : HCfg) (ticks : List TickIn) (env : HEnv) :
+    ∀ out ∈ runHistory cfg none none ticks env, ∀ t b, HEv.now t b ∈ out.evs → b = past out.dl t := by
+  refine runHistory_forall cfg (fun out => ∀ t b, HEv.now t b ∈ out.evs → b = past out.dl t) ?_
     ticks none none env Mon.init invSt_init
-  intro dl top roots st env m _ t b hmem
+  intro rank dl top roots st env m _ t b hmem
   exact runTick_nowOK cfg rank dl top roots st env _ hmem t b rfl
 
 /-! ## C07_no_signal_before_done -/
@@ -208,12 +208,12 @@ theorem readings_judged_by_the_deadline (cfg : HCfg) (rank : List View → List 
 between - across any number of ticks of waiting).  Then the attempt is on the cgroup the hook was fired for, and between the
 two the invocation was destroyed and was done: one of its polls answered "finished", or a reading was past the deadline.
 Since every signal of the model lies inside an attempt block, no process of the victim is signalled earlier. -/
-theorem no_signal_before_done (cfg : HCfg) (rank : List View → List View) (ticks : List TickIn) (env : HEnv)
+theorem no_signal_before_done (cfg : HCfg) (ticks : List TickIn) (env : HEnv)
     (pre mid post : List HEv) (h cg : Nat) (path : String) (inv cg' : Nat) (path' : String) (evs : List Ev) (ok : Bool)
-    (htr : trace cfg rank ticks env = pre ++ [.fire h cg path inv] ++ mid ++ [.attempt cg' path' evs ok] ++ post)
+    (htr : trace cfg ticks env = pre ++ [.fire h cg path inv] ++ mid ++ [.attempt cg' path' evs ok] ++ post)
     (hq : ∀ e ∈ mid, quiet e = true) :
     cg' = cg ∧ HEv.destroy inv ∈ mid ∧ (HEv.poll inv true ∈ mid ∨ ∃ t, HEv.now t true ∈ mid) := by
-  obtain ⟨m, hm⟩ := sound cfg rank ticks env
+  obtain ⟨m, hm⟩ := sound cfg ticks env
   rw [htr] at hm
   exact accepted_fire_then_attempt hm hq
 
@@ -225,13 +225,13 @@ Each kill attempt of any history comes right after one of:
 * a clock reading past the deadline (the window is over: no hook);
 * a clock reading inside the window, when no hook's patterns match the victim.
 So a candidate tried after a failed kill gets its own hook whenever one matches and the window is still open. -/
-theorem fallback_fires_again (cfg : HCfg) (rank : List View → List View) (ticks : List TickIn) (env : HEnv)
+theorem fallback_fires_again (cfg : HCfg) (ticks : List TickIn) (env : HEnv)
     (pre post : List HEv) (cg : Nat) (path : String) (evs : List Ev) (ok : Bool)
-    (htr : trace cfg rank ticks env = pre ++ .attempt cg path evs ok :: post) :
+    (htr : trace cfg ticks env = pre ++ .attempt cg path evs ok :: post) :
     (∃ pre1 h path' inv mid, pre = pre1 ++ [.fire h cg path' inv] ++ mid ∧ (∀ e ∈ mid, quiet e = true) ∧ HEv.destroy inv ∈ mid)
     ∨ (∃ pre1 t, pre = pre1 ++ [.now t true])
     ∨ ((∃ pre1 t, pre = pre1 ++ [.now t false]) ∧ selectHook cfg.prio cfg.pats (vp path) = none) := by
-  obtain ⟨m, hm⟩ := sound cfg rank ticks env
+  obtain ⟨m, hm⟩ := sound cfg ticks env
   rw [htr] at hm
   rcases accepted_attempt hm with ⟨inv, pre1, h, path', mid, hpre, hq, hd⟩ | h2 | h3
   · exact Or.inl ⟨pre1, h, path', inv, mid, hpre, hq, hd rfl⟩
@@ -301,8 +301,8 @@ def kcfg : KillCfg :=
 /-- hook 0 (higher priority) matches only `w/b`, hook 1 matches everything below `w` -/
 def hcfg : HCfg :=
   { kill := kcfg, prio := [0, 1], pats := fun h => if h = 0 then [Path.mk [] "w/b".toList] else [Path.mk [] "w".toList] }
-def tin : TickIn := { top := [.mk (info 10 "w") [va, vb]], roots := [va, vb], freshDl := some 100 }
-def tinRecreated : TickIn := { top := [.mk (info 10 "w") [va', vb]], roots := [va', vb], freshDl := some 200 }
+def tin : TickIn := { top := [.mk (info 10 "w") [va, vb]], roots := [va, vb], freshDl := some 100, rank := id }
+def tinRecreated : TickIn := { top := [.mk (info 10 "w") [va', vb]], roots := [va', vb], freshDl := some 200, rank := id }
 def kenv : Env := { procs := [some [101], some [102]], killRc := [3, 0], xattr := [], writes := [], pidfd := [], mrelease := [] }
 /-- the boundary events inside an attempt are not shown -/
 def shape : HEv → HEv
@@ -313,7 +313,7 @@ end Ex
 open Ex in
 /-- hook 1 fires for `w/a`, runs over two ticks, finishes on the third; the kill of `w/a` fails (ESRCH); the fallback candidate
 `w/b` gets its own hook - hook 0, the first that matches it - which finishes at once; `w/b` is killed -/
-example : (trace hcfg id [tin, tin, tin]
+example : (trace hcfg [tin, tin, tin]
       { kenv := kenv, clock := [50, 60, 70], polls := [false, false, true, true], nextInv := 0 }).map shape =
     [.now 50 false, .fire 1 11 "w/a" 0, .poll 0 false, .ret .async,
      .poll 0 false, .now 60 false, .ret .async,
@@ -323,7 +323,7 @@ example : (trace hcfg id [tin, tin, tin]
 open Ex in
 /-- the hook times out (reading 101 > deadline 100 of the firing tick; the fresh deadline 200 of the later tick is not used);
 the fallback candidate is tried past the window: no hook for it -/
-example : (trace hcfg id [tin, { tin with freshDl := some 200 }]
+example : (trace hcfg [tin, { tin with freshDl := some 200 }]
       { kenv := kenv, clock := [50, 101, 102], polls := [false, false], nextInv := 0 }).map shape =
     [.now 50 false, .fire 1 11 "w/a" 0, .poll 0 false, .ret .async,
      .poll 0 false, .now 101 true, .destroy 0, .attempt 11 "w/a" [] false,
@@ -332,7 +332,7 @@ example : (trace hcfg id [tin, { tin with freshDl := some 200 }]
 open Ex in
 /-- `w/a` is re-created while its hook runs: not killed, nothing else killed, CONTINUE; the next tick starts a fresh cycle
 with a fresh deadline -/
-example : (trace hcfg id [tin, tinRecreated, tinRecreated]
+example : (trace hcfg [tin, tinRecreated, tinRecreated]
       { kenv := kenv, clock := [50, 150], polls := [false, true, true], nextInv := 0 }).map shape =
     [.now 50 false, .fire 1 11 "w/a" 0, .poll 0 false, .ret .async,
      .poll 0 true, .destroy 0, .ret .cont,
